@@ -14,12 +14,21 @@ def cases_for(cfg):
         cs = []
         for opc, ln in REQS:
             if tier == 'quick':
-                mtus = (23, 65) if (opc, ln) in ((0x04, 5), (0x08, 7)) else (23,)
+                # the cost of Find Information / Read By Type grows with (number of attributes)^2 and doubles for a 128 bit type:
+                # quick keeps MTU 23 for every request kind on every declaration, the 128 bit Read By Type on B5 only
+                # (the declaration with two 128 bit value types) and MTU 65 for Find Information on B6
+                if (opc, ln) == (0x08, 21) and cfg != 4:
+                    continue
+                if (opc, ln) == (0x10, 21) and cfg != 6:
+                    continue
+                mtus = (23, 65) if (opc, ln) == (0x04, 5) and cfg == 5 else (23,)
             else:
                 mtus = (23, 24, 27, 43, 65)
             for mtu in mtus:
                 cs.append({'CFG': cfg, 'MODE': 0, 'OPC': opc, 'LEN': ln, 'MTU': mtu})
         for opc, ln in REQS:
+            if tier == 'quick' and ln == 21 and cfg != 4:
+                continue
             cs.append({'CFG': cfg, 'MODE': 1, 'OPC': opc, 'LEN': ln, 'MTU': 23})
         return cs
     return cases
@@ -28,11 +37,11 @@ def cases_for(cfg):
 PROPERTY = Property(
     'C02',
     [Harness('c02_disc_b%d' % c, UNITS[c], 'harness/c02_disc.c', cases_for(c), unwind=24,
-             unwindset=['vf_b_l2cap_input.0:%d' % (NATTR[c] + 2), 'vf_b_l2cap_input.1:%d' % (NATTR[c] + 2)], timeout=900,
+             unwindset=['vf_b_l2cap_input.0:%d' % (NATTR[c] + 2), 'vf_b_l2cap_input.1:%d' % (NATTR[c] + 2), 'memcpy.0:72'], timeout=1500,
              description='one Find Information / Read By Type / Read By Group Type request with symbolic handle range and type against the expected attribute table of '
                          + DESCR[c] + '; plus the lemma that accepted responses, iterated, enumerate every match exactly once',
-             bounds='request lengths 5 / 7 / 21; start, end, type UUID and the bound characteristic values fully symbolic; client MTU = output buffer 23 (all requests) and 65 '
-                    '(Find Information, 16 bit Read By Type) in quick / 23, 24, 27, 43, 65 in thorough; server max MTU 65; attribute loops unwound to number of attributes + 2')
+             bounds='request lengths 5 / 7 / 21; start, end, type UUID and the bound characteristic values fully symbolic; client MTU = output buffer 23 (every request kind on every declaration; the 16 byte type forms on one declaration each) and 65 '
+                    '(Find Information on B6) in quick / all request kinds x 23, 24, 27, 43, 65 on every declaration in thorough; server max MTU 65; attribute loops unwound to number of attributes + 2')
      for c in sorted(UNITS)],
     functions=['server::l2cap_input', 'server::handle_find_information_request', 'server::handle_read_by_type_request',
                'server::handle_read_by_group_type_request', 'server::check_size_and_handle_range', 'server::all_attributes', 'server::last_handle_index',
